@@ -271,6 +271,24 @@ pub proof fn lemma_csigs_cv(h: Header, v: Value)
         forall |i: int| 0 <= i < arr_of(v).len() ==> vv(#[trigger] arr_of(v)[i]) == sig_cv(h.counter_signatures@[i]),
     ensures vv(v) == csigs_cv(h),
 { lemma_vv_value_array(v); assert(vv_seq(arr_of(v)) =~= csigs_cv(h)->Array_0); }
+// ---- C19: a built header never carries both an IV and a Partial IV
+pub open spec fn iv_excl(h: Header) -> bool { !(h.iv@.len() > 0 && h.partial_iv@.len() > 0) }
+/// one HeaderBuilder call, as described by the verified postconditions of its 14 methods
+pub open spec fn hb_step(a: Header, b: Header) -> bool {
+    (b.iv == a.iv && b.partial_iv == a.partial_iv)      // key_id, algorithm, add_critical(_label), content_format/type, add_counter_signature, value, text_value, build
+    || (b.partial_iv@.len() == 0)                       // iv(): sets iv, clears partial_iv
+    || (b.iv@.len() == 0)                               // partial_iv(): sets partial_iv, clears iv
+}
+pub open spec fn hb_reach(hs: Seq<Header>) -> bool {
+    hs.len() > 0 && hdr_is_empty(hs[0]) && forall |i: int| 0 <= i < hs.len() - 1 ==> hb_step(#[trigger] hs[i], hs[i + 1])
+}
+pub proof fn lemma_builder_iv_exclusive(hs: Seq<Header>, k: int)
+    requires hb_reach(hs), 0 <= k < hs.len(),
+    ensures iv_excl(hs[k]),
+    decreases k
+{
+    if k > 0 { lemma_builder_iv_exclusive(hs, k - 1); assert(hb_step(hs[k - 1], hs[k])); }
+}
 // ---- C07 (first step): whatever decoding produced encodes successfully
 pub proof fn lemma_rest_of_props(m: Seq<(Value, Value)>)
     requires hdr_labels_distinct(m),
@@ -279,6 +297,7 @@ pub proof fn lemma_rest_of_props(m: Seq<(Value, Value)>)
         forall |a: int, b: int| 0 <= a < b < rest_of(m).len() ==> (#[trigger] rest_of(m)[a]).0 != (#[trigger] rest_of(m)[b]).0,
     decreases m.len()
 {
+    reveal(hdr_labels_distinct);
     if m.len() > 0 {
         let p = m.drop_last();
         assert forall |i: int, j: int| 0 <= i < j < p.len() implies #[trigger] label_of(p[i].0) != #[trigger] label_of(p[j].0) by { assert(p[i] == m[i] && p[j] == m[j]); }
@@ -307,6 +326,7 @@ pub proof fn lemma_decoded_header_encodable(v: Value, d: nat, h: Header)
     ensures hdr_encodable(h),
     decreases max_nest() - d, v, 0nat
 {
+    reveal(hdr_flat_ok);
     let m = map_of(v);
     lemma_rest_of_props(m);
     assert(m.subrange(0, m.len() as int) =~= m);
@@ -412,6 +432,7 @@ pub open spec fn ct_ok(v: Value) -> bool {
 }
 /// Nesting limit of protected headers (the value of MAX_HEADER_NESTING, checked where it is used).
 pub open spec fn max_nest() -> nat { 16 }
+#[verifier::opaque]
 pub open spec fn hdr_labels_distinct(m: Seq<(Value, Value)>) -> bool {
     forall |i: int, j: int| 0 <= i < j < m.len() ==> #[trigger] label_of(m[i].0) != #[trigger] label_of(m[j].0)
 }
@@ -475,6 +496,7 @@ pub open spec fn crit_res(c: Seq<RegisteredLabel<iana::HeaderParameter>>, v: Val
     arr_of(v).len() == c.len() && forall |j: int| 0 <= j < c.len() ==> reg_of::<iana::HeaderParameter>(#[trigger] arr_of(v)[j]) == Some(c[j])
 }
 /// typed fields other than the counter signatures, and the extras, for the first n pairs of m
+#[verifier::opaque]
 pub open spec fn hdr_flat_ok(h: Header, m: Seq<(Value, Value)>, n: int) -> bool {
     (forall |i: int| 0 <= i < n && #[trigger] label_of(m[i].0) == Some(Label::Int(1)) ==> (h.alg is Some && h.alg == regp_of::<iana::Algorithm>(m[i].1)))
     && (!has_label(m, n, Label::Int(1)) ==> h.alg is None)
@@ -538,8 +560,9 @@ pub open spec fn hdr_upd_ok(hp: Header, h: Header, k: Value, v: Value, d: nat) -
 }
 pub proof fn lemma_hdr_inv_init(h: Header, v: Value, d: nat)
     requires hdr_is_empty(h),
-    ensures hdr_inv(h, v, 0, d),
+    ensures hdr_inv(h, v, 0, d), hdr_labels_distinct(map_of(v).subrange(0, 0)),
 {
+    reveal(hdr_flat_ok); reveal(hdr_labels_distinct);
     assert(map_of(v).subrange(0, 0) =~= Seq::<(Value, Value)>::empty());
     assert(rest_of(map_of(v).subrange(0, 0)) =~= Seq::<(Label, Value)>::empty());
     assert(h.rest@ =~= Seq::<(Label, Value)>::empty());
@@ -547,7 +570,8 @@ pub proof fn lemma_hdr_inv_init(h: Header, v: Value, d: nat)
 pub proof fn lemma_absent_fields(h: Header, v: Value, n: int, d: nat, l: Label)
     requires hdr_inv(h, v, n, d), !has_label(map_of(v), n, l),
     ensures l == Label::Int(2) ==> h.crit@.len() == 0, l == Label::Int(7) ==> h.counter_signatures@.len() == 0,
-{}
+{
+    reveal(hdr_flat_ok);}
 pub proof fn lemma_hdr_inv_step(hp: Header, h: Header, v: Value, n: int, d: nat)
     requires
         0 <= n < map_of(v).len(),
@@ -556,6 +580,7 @@ pub proof fn lemma_hdr_inv_step(hp: Header, h: Header, v: Value, n: int, d: nat)
         hdr_upd_ok(hp, h, map_of(v)[n].0, map_of(v)[n].1, d),
     ensures hdr_inv(h, v, n + 1, d),
 {
+    reveal(hdr_flat_ok);
     let m = map_of(v);
     let l = label_of(m[n].0)->0;
     assert(m.subrange(0, n + 1).drop_last() =~= m.subrange(0, n));
@@ -569,10 +594,35 @@ pub proof fn lemma_hdr_inv_step(hp: Header, h: Header, v: Value, n: int, d: nat)
         if label_of(m[i].0) == Some(l) { assert(has_label(m, n, l)); }
     }
 }
+pub proof fn lemma_dup_not_distinct(ms: Seq<(Value, Value)>, n: int, label: Label)
+    requires 0 <= n < ms.len(), label_of(ms[n].0) == Some(label), has_label(ms, n, label),
+    ensures !hdr_labels_distinct(ms),
+{
+    reveal(hdr_labels_distinct);
+    let i0 = choose |i: int| 0 <= i < n && #[trigger] label_of(ms[i].0) == Some(label);
+    assert(label_of(ms[i0].0) == label_of(ms[n].0));
+}
+pub proof fn lemma_labels_step(ms: Seq<(Value, Value)>, n: int, label: Label)
+    requires 0 <= n < ms.len(), hdr_labels_distinct(ms.subrange(0, n)), label_of(ms[n].0) == Some(label), !has_label(ms, n, label),
+    ensures hdr_labels_distinct(ms.subrange(0, n + 1)), forall |x: Label| has_label(ms, n + 1, x) <==> (has_label(ms, n, x) || x == label),
+{
+    reveal(hdr_labels_distinct);
+    let s1 = ms.subrange(0, n + 1);
+    assert forall |i: int, j: int| 0 <= i < j < s1.len() implies #[trigger] label_of(s1[i].0) != #[trigger] label_of(s1[j].0) by {
+        if j < n { assert(label_of(ms.subrange(0, n)[i].0) != label_of(ms.subrange(0, n)[j].0)); }
+        else { if label_of(ms[i].0) == Some(label) { assert(has_label(ms, n, label)); assert(false); } }
+    }
+    assert forall |x: Label| has_label(ms, n + 1, x) <==> (has_label(ms, n, x) || x == label) by {
+        if has_label(ms, n + 1, x) { let i = choose |i: int| 0 <= i < n + 1 && #[trigger] label_of(ms[i].0) == Some(x); if i < n { assert(has_label(ms, n, x)); } }
+        if has_label(ms, n, x) { let i = choose |i: int| 0 <= i < n && #[trigger] label_of(ms[i].0) == Some(x); assert(has_label(ms, n + 1, x)); }
+        if x == label { assert(has_label(ms, n + 1, x)); }
+    }
+}
 pub proof fn lemma_iv_both(h: Header, v: Value, n: int, d: nat)
     requires v is Map, 0 <= n <= map_of(v).len(), hdr_inv(h, v, n, d), h.iv@.len() > 0, h.partial_iv@.len() > 0,
     ensures !hdr_ok(v, d),
 {
+    reveal(hdr_flat_ok);
     let m = map_of(v);
     assert(has_label(m, n, Label::Int(5)));
     assert(has_label(m, n, Label::Int(6)));
@@ -590,6 +640,7 @@ pub proof fn lemma_hdr_final(h: Header, v: Value, d: nat)
         !(h.iv@.len() > 0 && h.partial_iv@.len() > 0),
     ensures hdr_ok(v, d), hdr_res(v, d, h),
 {
+    reveal(hdr_flat_ok); reveal(hdr_labels_distinct);
     let m = map_of(v);
     assert(m.subrange(0, m.len() as int) =~= m);
     if has_label(m, m.len() as int, Label::Int(5)) && has_label(m, m.len() as int, Label::Int(6)) {
@@ -646,11 +697,7 @@ impl Header {«
             let label = Label::from_cbor_value(l)?;«
             proof { assert(label_of(ms[n].0) == Some(label)); }»
             if seen.contains(&label) {«
-                proof {
-                    let i0 = choose |i: int| 0 <= i < n && #[trigger] label_of(ms[i].0) == Some(label);
-                    assert(label_of(ms[i0].0) == label_of(ms[n].0));
-                    assert(!hdr_labels_distinct(ms));
-                }»
+                proof { lemma_dup_not_distinct(ms, n, label); }»
                 return Err(CoseError::DuplicateMapKey);
             }
             seen.insert(label.clone());
@@ -779,16 +826,8 @@ impl Header {«
             proof {
                 assert(hdr_pair_ok(ms[n].0, ms[n].1, d));
                 lemma_hdr_inv_step(hp, headers, val0, n, d);
-                let s1 = ms.subrange(0, n + 1);
-                assert forall |i: int, j: int| 0 <= i < j < s1.len() implies #[trigger] label_of(s1[i].0) != #[trigger] label_of(s1[j].0) by {
-                    if j < n { assert(label_of(ms.subrange(0, n)[i].0) != label_of(ms.subrange(0, n)[j].0)); }
-                    else { if label_of(ms[i].0) == Some(label) { assert(has_label(ms, n, label)); assert(false); } }
-                }
-                assert forall |x: Label| seen@.contains(x) <==> has_label(ms, n + 1, x) by {
-                    if has_label(ms, n + 1, x) { let i = choose |i: int| 0 <= i < n + 1 && #[trigger] label_of(ms[i].0) == Some(x); if i < n { assert(has_label(ms, n, x)); } }
-                    if has_label(ms, n, x) { let i = choose |i: int| 0 <= i < n && #[trigger] label_of(ms[i].0) == Some(x); assert(has_label(ms, n + 1, x)); }
-                    if x == label { assert(has_label(ms, n + 1, x)); }
-                }
+                lemma_labels_step(ms, n, label);
+                assert forall |x: Label| seen@.contains(x) <==> has_label(ms, n + 1, x) by {}
             }»
             // RFC 8152 section 3.1: "The 'Initialization Vector' and 'Partial Initialization
             // Vector' parameters MUST NOT both be present in the same security layer."
@@ -980,7 +1019,7 @@ impl HeaderBuilder {
     /// Set the algorithm.
     #[must_use]
     pub fn algorithm(self, alg: iana::Algorithm) ->« (r:» Self«)
-        ensures r.inner() == (Header { alg: Some(Algorithm::Assigned(alg)), ..self.inner() }),» { let mut self_ = self;
+        ensures hb_step(self.inner(), r.inner()), r.inner() == (Header { alg: Some(Algorithm::Assigned(alg)), ..self.inner() }),» { let mut self_ = self;
         self_.0.alg = Some(Algorithm::Assigned(alg));
         self_
     }
@@ -988,7 +1027,7 @@ impl HeaderBuilder {
     /// Add a critical header.
     #[must_use]
     pub fn add_critical(self, param: iana::HeaderParameter) ->« (r:» Self«)
-        ensures r.inner() == (Header { crit: r.inner().crit, ..self.inner() }), r.inner().crit@ == self.inner().crit@.push(RegisteredLabel::Assigned(param)),» { let mut self_ = self;
+        ensures hb_step(self.inner(), r.inner()), r.inner() == (Header { crit: r.inner().crit, ..self.inner() }), r.inner().crit@ == self.inner().crit@.push(RegisteredLabel::Assigned(param)),» { let mut self_ = self;
         self_.0.crit.push(RegisteredLabel::Assigned(param));
         self_
     }
@@ -996,7 +1035,7 @@ impl HeaderBuilder {
     /// Add a critical header.
     #[must_use]
     pub fn add_critical_label(self, label: RegisteredLabel<iana::HeaderParameter>) ->« (r:» Self«)
-        ensures r.inner() == (Header { crit: r.inner().crit, ..self.inner() }), r.inner().crit@ == self.inner().crit@.push(label),» { let mut self_ = self;
+        ensures hb_step(self.inner(), r.inner()), r.inner() == (Header { crit: r.inner().crit, ..self.inner() }), r.inner().crit@ == self.inner().crit@.push(label),» { let mut self_ = self;
         self_.0.crit.push(label);
         self_
     }
@@ -1004,7 +1043,7 @@ impl HeaderBuilder {
     /// Set the content type to a numeric value.
     #[must_use]
     pub fn content_format(self, content_type: iana::CoapContentFormat) ->« (r:» Self«)
-        ensures r.inner() == (Header { content_type: Some(ContentType::Assigned(content_type)), ..self.inner() }),» { let mut self_ = self;
+        ensures hb_step(self.inner(), r.inner()), r.inner() == (Header { content_type: Some(ContentType::Assigned(content_type)), ..self.inner() }),» { let mut self_ = self;
         self_.0.content_type = Some(ContentType::Assigned(content_type));
         self_
     }
@@ -1012,7 +1051,7 @@ impl HeaderBuilder {
     /// Set the content type to a text value.
     #[must_use]
     pub fn content_type(self, content_type: String) ->« (r:» Self«)
-        ensures r.inner() == (Header { content_type: Some(ContentType::Text(content_type)), ..self.inner() }),» { let mut self_ = self;
+        ensures hb_step(self.inner(), r.inner()), r.inner() == (Header { content_type: Some(ContentType::Text(content_type)), ..self.inner() }),» { let mut self_ = self;
         self_.0.content_type = Some(ContentType::Text(content_type));
         self_
     }
@@ -1020,7 +1059,7 @@ impl HeaderBuilder {
     /// Set the IV, and clear any partial IV already set.
     #[must_use]
     pub fn iv(self, iv: Vec<u8>) ->« (r:» Self«)
-        ensures r.inner() == (Header { iv: iv, partial_iv: r.inner().partial_iv, ..self.inner() }), r.inner().partial_iv@.len() == 0,» { let mut self_ = self;
+        ensures hb_step(self.inner(), r.inner()), r.inner() == (Header { iv: iv, partial_iv: r.inner().partial_iv, ..self.inner() }), r.inner().partial_iv@.len() == 0,» { let mut self_ = self;
         self_.0.iv = iv;
         self_.0.partial_iv.clear();
         self_
@@ -1029,7 +1068,7 @@ impl HeaderBuilder {
     /// Set the partial IV, and clear any IV already set.
     #[must_use]
     pub fn partial_iv(self, iv: Vec<u8>) ->« (r:» Self«)
-        ensures r.inner() == (Header { partial_iv: iv, iv: r.inner().iv, ..self.inner() }), r.inner().iv@.len() == 0,» { let mut self_ = self;
+        ensures hb_step(self.inner(), r.inner()), r.inner() == (Header { partial_iv: iv, iv: r.inner().iv, ..self.inner() }), r.inner().iv@.len() == 0,» { let mut self_ = self;
         self_.0.partial_iv = iv;
         self_.0.iv.clear();
         self_
@@ -1038,7 +1077,7 @@ impl HeaderBuilder {
     /// Add a counter signature.
     #[must_use]
     pub fn add_counter_signature(self, sig: CoseSignature) ->« (r:» Self«)
-        ensures r.inner() == (Header { counter_signatures: r.inner().counter_signatures, ..self.inner() }), r.inner().counter_signatures@ == self.inner().counter_signatures@.push(sig),» { let mut self_ = self;
+        ensures hb_step(self.inner(), r.inner()), r.inner() == (Header { counter_signatures: r.inner().counter_signatures, ..self.inner() }), r.inner().counter_signatures@ == self.inner().counter_signatures@.push(sig),» { let mut self_ = self;
         self_.0.counter_signatures.push(sig);
         self_
     }
@@ -1052,7 +1091,7 @@ impl HeaderBuilder {
     #[must_use]
     pub fn value(self, label: i64, value: Value) ->« (r:» Self«)
         requires !(1 <= label <= 7),
-        ensures r.inner() == (Header { rest: r.inner().rest, ..self.inner() }), r.inner().rest@ == self.inner().rest@.push((Label::Int(label), value)),» { let mut self_ = self;
+        ensures hb_step(self.inner(), r.inner()), r.inner() == (Header { rest: r.inner().rest, ..self.inner() }), r.inner().rest@ == self.inner().rest@.push((Label::Int(label), value)),» { let mut self_ = self;
         if label >= iana::HeaderParameter::Alg.to_i64()
             && label <= iana::HeaderParameter::CounterSignature.to_i64()
         {
@@ -1065,7 +1104,7 @@ impl HeaderBuilder {
     /// Set a header label:value pair where the `label` is text.
     #[must_use]
     pub fn text_value(self, label: String, value: Value) ->« (r:» Self«)
-        ensures r.inner() == (Header { rest: r.inner().rest, ..self.inner() }), r.inner().rest@ == self.inner().rest@.push((Label::Text(label), value)),» { let mut self_ = self;
+        ensures hb_step(self.inner(), r.inner()), r.inner() == (Header { rest: r.inner().rest, ..self.inner() }), r.inner().rest@ == self.inner().rest@.push((Label::Text(label), value)),» { let mut self_ = self;
         self_.0.rest.push((Label::Text(label), value));
         self_
     }
